@@ -231,6 +231,18 @@ pub fn run(tier: Tier) {
         frontier = next;
     }
 
+    // plus, beyond the depth: every pair of calls with a clone or a snapshot round trip in between
+    // (what was consumed before the copy must still count after it)
+    for c1 in CALLS.iter().filter(|c| !matches!(c, Call::CloneIt | Call::SnapshotRestore)) {
+        for mid in [Call::CloneIt, Call::SnapshotRestore] {
+            for c2 in CALLS.iter().filter(|c| !matches!(c, Call::CloneIt | Call::SnapshotRestore)) {
+                let sq = vec![*c1, mid, *c2];
+                if !seqs.contains(&sq) {
+                    seqs.push(sq);
+                }
+            }
+        }
+    }
     let prog_ticks: Vec<(&Prog, u64)> = progs.iter().flat_map(|p| TICKS_NS.iter().map(move |t| (p, *t))).collect();
     prog_ticks.par_iter().for_each(|(p, tick_ns)| {
         let p: &Prog = p;
@@ -364,7 +376,7 @@ pub fn run(tier: Tier) {
         "call_outcomes": outcomes.into_inner().unwrap(),
         "exhaustive": true,
         "samples": samples_out.take(),
-        "rule": "every call sequence up to the depth over {run, authorize, authorize_with_limits(big), query, query_all, query_with_limits(big), clone, snapshot->restore} on one Authorizer x every program (chains needing L iterations, fan-out, k-way joins = one expensive iteration, preloaded facts, mixed; in the authorizer or in a token block) x every limit class (each budget at 0, 1, boundary-1, boundary, boundary+1 around the program's own needs, others unlimited; all at / below the boundary); virtual clock: each candidate examined by the join iterator costs 1 microsecond in one pass and 300 ms in a second pass (consumed time then crosses whole seconds), reads are free; invariants S1 (completion only within cumulative budgets), S2 (overshoot after the deadline <= 32 x (facts + body predicates + 1) ticks), no panic",
+        "rule": "every call sequence up to the depth (plus every pair of calls with a clone or a snapshot round trip in between) over {run, authorize, authorize_with_limits(big), query, query_all, query_with_limits(big), clone, snapshot->restore} on one Authorizer x every program (chains needing L iterations, fan-out, k-way joins = one expensive iteration, preloaded facts, mixed; in the authorizer or in a token block) x every limit class (each budget at 0, 1, boundary-1, boundary, boundary+1 around the program's own needs, others unlimited; all at / below the boundary); virtual clock: each candidate examined by the join iterator costs 1 microsecond in one pass and 300 ms in a second pass (consumed time then crosses whole seconds), reads are free; invariants S1 (completion only within cumulative budgets), S2 (overshoot after the deadline <= 32 x (facts + body predicates + 1) ticks), no panic",
     });
     ctx.finish(
         "model_checking",
